@@ -770,6 +770,23 @@ class Session:
                       op="enter_" + step["enter"])
         self.ctx_stack.append(cm)
         self.model.enter(step)
+        if step.get("flushes"):
+            # a backend-wide context entered with capacity 0 while data is buffered: the smaller capacity forces a
+            # flush right away ("unless the buffer capacity forces a flush"). Whatever the strategy wrote is taken
+            # over: every buffered resource holds either its old content or all buffered changes.
+            m = self.model
+            for r in range(len(self.resources)):
+                if not m.res_buffered(r):
+                    continue
+                got = self.resources[r].probe()
+                if got != MISSING and model.compare(got, m.logical[r]) in ("ok", "strict_only"):
+                    m.truth[r] = copy.deepcopy(m.logical[r])
+                    m.dirty[r] = "clean"
+                    m.may_create[r] = False
+                elif not ((got == MISSING and m.truth[r] == MISSING) or
+                          (got != MISSING and m.truth[r] != MISSING and model.compare(got, m.truth[r]) != "mismatch")):
+                    self.viol("flush", f"after entering buffer_backend(0) resource r{r} holds {got!r}: neither the old "
+                              f"content {m.truth[r]!r} nor the buffered one {m.logical[r]!r}", op="enter_backend")
 
     def _do_exit(self, step):
         m = self.model
